@@ -3,7 +3,12 @@
 package main
 
 import (
+	"encoding/base64"
 	"encoding/json"
+	"fmt"
+	"os"
+
+	"golang.org/x/crypto/bcrypt"
 	mrand "math/rand"
 	"strings"
 	"sync"
@@ -56,7 +61,7 @@ func init() {
 						r = 3600
 					}
 					mk := func() *vpCfg {
-						return &vpCfg{Store: k.store, Refresh: r, EmailDomains: []string{"example.com"}, AllowedGroups: []string{"g1"}, Legacy: map[string]bool{"passAccessToken": true, "setXAuthRequest": true}}
+						return &vpCfg{Store: k.store, Refresh: r, EmailDomains: []string{"example.com"}, AllowedGroups: []string{"g1"}, Htpasswd: true, HtpasswdGroups: []string{"g1"}, Legacy: map[string]bool{"passAccessToken": true, "setXAuthRequest": true}}
 					}
 					a, err := vpNewWorld(mk())
 					if err != nil {
@@ -73,13 +78,51 @@ func init() {
 					worlds[k] = [2]*vpWorld{a, ab}
 					return worlds[k], nil
 				}
+				curPw := map[key]int{}
+				sentinel := 0
+				// the htpasswd file of both proxies rewritten (rename into place) with the bcrypt entry of password version ver;
+				// a fresh sentinel user tells when the reload has completed
+				writeHt := func(pair [2]*vpWorld, ver int) bool {
+					sentinel++
+					sn := fmt.Sprintf("sentinel%d", sentinel)
+					h, _ := bcrypt.GenerateFromPassword([]byte(fmt.Sprintf("hp-pass-%d", ver)), bcrypt.MinCost)
+					content := "hp:" + string(h) + "\n" + vpHtpasswdLine(sn, "s") + "\n"
+					for _, w := range pair {
+						tmp := w.htpasswdPath + ".tmp"
+						if os.WriteFile(tmp, []byte(content), 0o600) != nil || os.Rename(tmp, w.htpasswdPath) != nil {
+							return false
+						}
+					}
+					cred := "Basic " + base64.StdEncoding.EncodeToString([]byte(sn+":s"))
+					for _, w := range pair {
+						ok := false
+						for dl := time.Now().Add(3 * time.Second); time.Now().Before(dl); time.Sleep(300 * time.Microsecond) {
+							if w.do(vpReq{Target: "/private", Header: [][2]string{{"Authorization", cred}}}).UpHits > 0 {
+								ok = true
+								break
+							}
+						}
+						if !ok {
+							return false
+						}
+					}
+					return true
+				}
 				for c := range ch {
 					var cm map[string]interface{}
 					json.Unmarshal(c.Cfg, &cm)
-					pair, err := get(key{vpS(cm, "store"), vpB(cm, "refresh")})
+					k := key{vpS(cm, "store"), vpB(cm, "refresh")}
+					pair, err := get(k)
 					if err != nil {
 						env.emit(vpOut{ID: c.ID, Err: "world: " + err.Error()})
 						continue
+					}
+					if curPw[k] != 1 {
+						if !writeHt(pair, 1) {
+							env.emit(vpOut{ID: c.ID, Err: "htpasswd reload not observed"})
+							continue
+						}
+						curPw[k] = 1
 					}
 					if pair[0].mr != nil {
 						pair[0].mr.FlushAll() // every behaviour starts from an empty store
@@ -211,6 +254,17 @@ func init() {
 						case "rules":
 							cur = 1 - cur
 							obs["reloaded"] = true
+						case "basic":
+							cred := "Basic " + base64.StdEncoding.EncodeToString([]byte(fmt.Sprintf("hp:hp-pass-%d", vpI(st.Args, "v"))))
+							r := w.do(vpReq{Target: "/private", Header: [][2]string{{"Authorization", cred}}})
+							obs["served"] = r.UpHits > 0
+							obs["status"] = r.Status
+							if r.UpLast != nil {
+								obs["user"] = map[string]string{"hp": "hp"}[r.UpLast.Header.Get("X-Forwarded-User")]
+							}
+						case "pwchange":
+							obs["reloaded"] = writeHt(pair, vpI(st.Args, "to"))
+							curPw[k] = vpI(st.Args, "to")
 						case "groups":
 							u := vpS(st.Args, "user")
 							usr := pair[0].idp.user(u)
